@@ -24,6 +24,14 @@ def groups(tier):
     L = 1 if tier == 'quick' else 2
     gs = [{'name': 'primitive-' + o, 'fn': form_group, 'args': {'form': 'primitive', 'op': o, 'L': L}} for o in OPS]
     gs += [{'name': f, 'fn': form_group, 'args': {'form': f, 'op': None, 'L': L}} for f in ('partial', 'tilde', 'tilde-gt', 'caret', 'hyphen')]
+    # two comparators of one alternative through the crate's real AND-fold against node-semver's testSet over both desugarings
+    singles = [('primitive', o) for o in OPS] + [('partial', None), ('tilde', None), ('caret', None)]
+    pairs = [(a, b) for a in singles for b in singles]
+    if tier == 'quick':
+        pairs = [(('caret', None), ('primitive', 'LessThan')), (('primitive', 'GreaterThanEquals'), ('primitive', 'LessThanEquals')), (('partial', None), ('tilde', None)),
+                 (('primitive', 'LessThan'), ('primitive', 'GreaterThan')), (('tilde', None), ('primitive', 'Exact'))]
+    for (f1, o1), (f2, o2) in pairs:
+        gs.append({'name': 'pair-%s%s+%s%s' % (f1, '-' + o1 if o1 else '', f2, '-' + o2 if o2 else ''), 'fn': pair_group, 'args': {'f1': f1, 'o1': o1, 'f2': f2, 'o2': o2, 'L': 1}})
     return gs
 
 
@@ -194,6 +202,66 @@ def form_group(s, form, op, L):
             h.gate(bs, v) == npm.optin(h, comps, v), decode=dec, replay=replay_list, cls=cls)
     s.unreachable(h, '%s: no panic / overflow in the desugaring (components <= MAX_SAFE_INTEGER)' % form, [], pan, decode=dec, replay=replay, cls=cls)
     s.bounds_ok(h, form, [])
+
+
+def build_form(h, e, cx, form, op, part):
+    unit = Clo('form', [])
+    if form == 'primitive':
+        OpT = e.ty('range::Operation')
+        arg = St(e.ty('(range::Operation, range::Partial)'), [mk_variant(OpT, op), part])
+        return h.call(closure_body(e, 'primitive::{closure#0}'), unit, arg), npm.xrange(cx, OPTXT[op], structured(h, part))
+    if form == 'partial':
+        return h.call(closure_body(e, 'partial::{closure#0}'), unit, part), npm.xrange(cx, '', structured(h, part))
+    if form == 'tilde':
+        arg = St(e.ty('(Option<&str>, range::Partial)'), [mk_variant(e.ty('Option<&str>'), 'None'), part])
+        return h.call(closure_body(e, 'tilde::{closure#0}'), unit, arg), npm.tilde(cx, structured(h, part))
+    if form == 'caret':
+        return h.call(closure_body(e, 'caret::{closure#0}'), unit, part), npm.caret(cx, structured(h, part))
+    raise ValueError(form)
+
+
+def pair_group(s, f1, o1, f2, o2, L):
+    """`c1 c2` (one alternative): the crate's fold of the two produced intervals vs node-semver's testSet over both desugarings"""
+    from ..values import Vc
+    h = s.harness(L=L, cap_bs=2, caps={'Option': 2})
+    e = h.eng
+    install_tokenizer_stubs(e)
+    cx = npm.Ctx(h)
+    p1, p2 = sym_partial(h, 'a'), sym_partial(h, 'b')
+    r1, c1 = build_form(h, e, cx, f1, o1, p1)
+    r2, c2 = build_form(h, e, cx, f2, o2, p2)
+    h.wf += e.stub_wf
+    v = h.version('v')
+    VT = e.ty('Vec<Option<range::BoundSet>>')
+    vec = Vc(VT, bv(2, 64), [r1, r2] + [None] * (VT.cap - 2), 2)
+    fold = [b for nm, bl in e.bodies.items() for b in bl if nm.endswith('range::{closure#0}') and '::{closure#0}::{closure#0}' not in nm and 'range_set' not in nm][0]
+    res = h.call(fold, Clo('fold', []), vec)
+    got = h.call(h.fn('Range', None, 'satisfies'), St(h.R, [res]), v).t
+    want = npm.admits(h, c1 + c2, v)
+    hy = known_exclusions(s, h, f1, o1, [p1], v) + known_exclusions(s, h, f2, o2, [p2], v)
+
+    def dec(m):
+        return {'forms': [[f1, o1], [f2, o2]], 'parts': [dec_partial(h, m, p1), dec_partial(h, m, p2)], 'v': h.dec_version(m, v)}
+
+    def replay(case):
+        names = rp.tok_names(case)
+        texts = [form_text(f, o, [p], names) for (f, o), p in zip(case['forms'], case['parts'])]
+        prog = [{'id': 'R', 'op': 'range', 'text': ' '.join(texts)}, rp.version_step('v', case['v'], names), {'id': 's', 'op': 'satisfies', 'r': 'R', 'v': 'v'}]
+
+        def judge(native):
+            comps = []
+            for (f, o), p in zip(case['forms'], case['parts']):
+                comps += npm.py_comps(f, OPTXT.get(o), [{'M': p['M'], 'm': p['m'], 'p': p['p'], 'pre': [rp.ident_raw(i, names) for i in p['pre']]}])
+            want_n = npm.py_admits(comps, O.raw_version(case['v'], names))
+            R = native.get('R') or {}
+            got_n = bool(native.get('s')) if R.get('ok') else False
+            txt = 'range %r parses to %s; satisfies(%s)=%s, node-semver 7.5.4 admits: %s' % (prog[0]['text'], R.get('print', R.get('kind')), rp.version_text(case['v'], names), got_n, want_n)
+            return ('confirmed' if got_n != want_n else 'mismatch'), txt
+        return prog, judge
+    nm = '%s%s %s%s' % (f1, ' ' + OPTXT[o1] if o1 else '', f2, ' ' + OPTXT[o2] if o2 else '')
+    s.cover(h, 'both comparators valid and a prerelease satisfies the pair', [is_variant(r1, 'Some'), is_variant(r2, 'Some'), got, h.is_pre(v)])
+    s.prove(h, '`%s` as one alternative is satisfied exactly when node-semver admits the version under both desugarings' % nm, hy, got == want, decode=dec, replay=replay)
+    s.bounds_ok(h, nm, [])
 
 
 def hyphen_partials(h, e, k0):
